@@ -4,6 +4,10 @@ Streams
   rt       save + load of one array through one (class, route, compression, endianness, on-disk dtype,
            data offset) cell; the model predicts the data-file length, the zero fill, the bytes of the
            data region, what follows it, and the loaded shape + bit patterns.
+  perm     rt on every axis permutation of C-/F-contiguous buffers (rank 2-4) with the on-disk dtype and byte
+           order equal to the in-memory ones (no cast, no swap) and with a cast.
+  history  rt where the SAME image object was saved before with other on-disk dtypes (rescaled / refused / plain)
+           to other destinations; the lossless save under test must still store exactly the cast bytes.
   zero     rt on zero-size arrays (repaired by `fix: array_from_file returns an empty array ...`).
   refuse   rt with a data offset below the single-file minimum: both sides must refuse.
   sn       ArrayWriter / SlopeArrayWriter.scaling_needed against the model, all dtype pairs.
@@ -11,6 +15,7 @@ Streams
   opener   the file objects ImageOpener really opens for 'wb' and 'rb' on the table names.
   rd       array_from_file on truncated / exact / over-long data files (refusal on short files).
   mghshape MGH shape rules (constructor padding, header shape, save refusal).
+Concurrent access to one file handle (threads slicing while the whole array is read) is C14, not checked here.
 """
 import bz2
 import gzip
@@ -61,7 +66,9 @@ RULE = ('rt: every valid (class x route x compression) cell x random (endianness
         'scaling, rank 1-7 shape with length-1 axes, memory layout C/F/strided/negative/byte-swapped/unaligned/'
         'read-only, extremes + NaN payloads + infinities + signed zeros, default or explicit data offset); '
         'a case is non-trivial when the array has >= 2 elements; distinct by (class, route, compression, endianness, '
-        'in dtype, out dtype, shape, layout, offset, values). sn: all dtype pairs x value classes x {base, slope}. '
+        'in dtype, out dtype, shape, layout, offset, values, history). perm: all axis permutations for rank 2-4 x C/F base x '
+        'class x endianness with memory byte order == disk byte order. history: class x prior dtype x tested dtype. '
+        'Concurrent access through a shared handle is C14. sn: all dtype pairs x value classes x {base, slope}. '
         'codec: every generated table name x roots + random names. mghshape: all shapes of rank 0-5 over {1,2,3}.')
 
 PENDING_FINDINGS = [{
@@ -231,42 +238,83 @@ def base_array(in_name, shape, vals):
     return a
 
 
-LAYOUTS = ['C', 'F', 'strided', 'neg', 'swapped', 'unaligned', 'readonly', 'bigstride']
+GEOMS = ['C', 'F', 'strided', 'neg', 'unaligned', 'bigstride']
 
 
-def with_layout(a, layout):
-    """an array logically equal to `a` with the requested memory layout"""
+def _geom(a, geom):
     nd = a.ndim
-    if layout == 'C' or a.size == 0:
-        return a
-    if layout == 'F':
+    if geom == 'C':
+        return np.ascontiguousarray(a)
+    if geom == 'F':
         return np.asfortranarray(a)
-    if layout == 'strided':
+    if geom == 'strided':
         big = np.zeros(tuple(2 * s for s in a.shape), a.dtype)
         sl = (slice(None, None, 2),) * nd
         big[sl] = a
         return big[sl]
-    if layout == 'bigstride':
+    if geom == 'bigstride':
         big = np.zeros(a.shape + (3,), a.dtype, order='F' if nd % 2 else 'C')
         big[..., 1] = a
         return big[..., 1]
-    if layout == 'neg':
+    if geom == 'neg':
         rev = (slice(None, None, -1),) * nd
         return np.ascontiguousarray(a[rev])[rev]
-    if layout == 'swapped':
-        if a.dtype.kind == 'V' or a.dtype.itemsize == 1:
-            return np.asfortranarray(a)
-        return a.astype(a.dtype.newbyteorder('S'))
-    if layout == 'unaligned':
+    if geom == 'unaligned':
         buf = bytearray(a.nbytes + 1)
         v = np.frombuffer(buf, dtype=a.dtype, count=a.size, offset=1).reshape(a.shape)
         v[...] = a
         return v
-    if layout == 'readonly':
-        b = a.copy()
-        b.flags.writeable = False
-        return b
-    raise ValueError(layout)
+    if geom.startswith('perm:'):
+        # memory = C- or F-contiguous buffer holding the axes in the order `perm`, viewed back in logical
+        # order (e.g. a series assembled volumes-first and viewed volumes-last)
+        _, base, ptxt = geom.split(':')
+        perm = tuple(int(x) for x in ptxt.split('.')) if ptxt else ()
+        if sorted(perm) != list(range(nd)):
+            return a                                   # (shrunk shape no longer matches: plain layout)
+        t = a.transpose(perm)
+        buf = np.ascontiguousarray(t) if base == 'C' else np.asfortranarray(t)
+        return buf.transpose(np.argsort(perm))
+    raise ValueError(geom)
+
+
+def with_layout(a, layout):
+    """an array logically equal to `a` with the requested memory layout.
+    layout = <geometry>[+swap][+ro]; geometry in GEOMS or perm:<C|F>:<axis permutation, `.`-separated>;
+    swap = non-native byte order in memory; ro = read-only.  (`swapped`, `readonly`: older spellings.)"""
+    layout = {'swapped': 'F+swap', 'readonly': 'C+ro'}.get(layout, layout)
+    parts = layout.split('+')
+    geom, flags = parts[0], parts[1:]
+    if a.size == 0:
+        return a
+    if 'swap' in flags and a.dtype.kind != 'V' and a.dtype.itemsize > 1:
+        a = a.astype(a.dtype.newbyteorder('S'))
+    v = _geom(a, geom)
+    if 'ro' in flags:
+        if v is a:
+            v = a.copy()
+        v.flags.writeable = False
+    return v
+
+
+def gen_layout(rng, rank):
+    r = rng.random()
+    if r < 0.45:
+        p = list(range(rank))
+        if rng.random() < 0.5:                      # rotations of the identity / the reversal
+            k = rng.randrange(rank)
+            p = p[k:] + p[:k]
+            if rng.random() < 0.5:
+                p.reverse()
+        else:
+            rng.shuffle(p)
+        geom = f'perm:{rng.choice("CF")}:' + '.'.join(map(str, p))
+    else:
+        geom = rng.choice(GEOMS)
+    if rng.random() < 0.5:
+        geom += '+swap'
+    if rng.random() < 0.1:
+        geom += '+ro'
+    return geom
 
 
 def patterns(a, name):
@@ -311,12 +359,15 @@ def needs_no_scaling(in_name, out_name, vals):
 
 # ------------------------------------------------------------------ cases
 
-def mk_rt(cls, endian, out, offset, shape, in_name, layout, vals, route, comp, stream='rt', expect=None):
+def mk_rt(cls, endian, out, offset, shape, in_name, layout, vals, route, comp, stream='rt', expect=None,
+          history=None):
     shape = tuple(int(s) for s in shape)
     data = {'op': 'rt', 'cls': cls, 'endian': endian, 'out': out, 'offset': offset, 'shape': list(shape),
             'in': in_name, 'layout': layout, 'vals': vals, 'route': route, 'comp': comp, 'stream': stream}
     if expect:
         data['expect'] = expect
+    if history:
+        data['history'] = history      # prior saves of the SAME image object: [{'out': dtype, 'route': route}]
     ik, _, _ = comp_layout(in_name)
     okd, _, _ = comp_layout(out)
     off = '_' if offset is None else str(offset)
@@ -327,7 +378,7 @@ def mk_rt(cls, endian, out, offset, shape, in_name, layout, vals, route, comp, s
             cast = base_array(in_name, shape, vals).astype(np_dtype(out))      # NumPy cast = model parameter
         line = f'C01 rt {cls} {endian} {out} {off} {fmt_shape(shape)} raw {fmt_elems(patterns(cast, out))}'
     n = int(np.prod(shape, dtype=object)) if len(shape) else 1
-    key = None if n < 2 else (cls, route, comp, endian, in_name, out, shape, layout, offset, repr(vals))
+    key = None if n < 2 else (cls, route, comp, endian, in_name, out, shape, layout, offset, repr(vals), repr(history))
     return Case(line, data, key, stream)
 
 
@@ -375,7 +426,8 @@ def case_from_data(d):
     op = d['op']
     if op == 'rt':
         return mk_rt(d['cls'], d['endian'], d['out'], d.get('offset'), d['shape'], d['in'], d.get('layout', 'C'),
-                     d['vals'], d.get('route', 'file_map'), d.get('comp', ''), d.get('stream', 'rt'), d.get('expect'))
+                     d['vals'], d.get('route', 'file_map'), d.get('comp', ''), d.get('stream', 'rt'), d.get('expect'),
+                     d.get('history'))
     if op == 'sn':
         return mk_sn(d['writer'], d['in'], d['out'], d['vals'])
     if op == 'codec':
@@ -411,6 +463,30 @@ def _wrap_stream(bio, comp, mode):
     return bio
 
 
+def _prior_save(img, c, route):
+    if route == 'bytes' and hasattr(img, 'to_bytes'):
+        img.to_bytes()
+    elif route == 'filename':
+        with tempfile.TemporaryDirectory(prefix='c01_') as tmp:
+            ext = '.mgh' if c.__name__ == 'MGHImage' else c.files_types[0][1]
+            img.to_filename(os.path.join(tmp, 'prior' + ext))
+    else:
+        fm = c.make_file_map()
+        for k in fm:
+            fm[k].fileobj = io.BytesIO()
+        img.to_file_map(fm)
+
+
+def _fdata(loaded, out_name):
+    """loaded.get_fdata() for real numeric on-disk types (None otherwise / on error text)"""
+    if comp_layout(out_name)[0] not in 'iuf':
+        return None
+    try:
+        return np.array(loaded.get_fdata())
+    except Exception as e:                      # pragma: no cover
+        return 'get_fdata raised ' + repr(e)[:100]
+
+
 def save_load(d, arr):
     """run the real code: returns (decompressed data-file bytes, loaded image, loaded array)"""
     import nibabel as nib
@@ -424,6 +500,17 @@ def save_load(d, arr):
     img = c(arr, np.eye(4), hdr)
     if d.get('offset') is not None:
         img.header.set_data_offset(d['offset'])
+    # history: the same image object was saved before, with another on-disk dtype (possibly one that needs
+    # rescaling, possibly refused), to another destination; those saves are outside the property, the save
+    # below is the one under test
+    for h in d.get('history') or []:
+        try:
+            img.set_data_dtype(np_dtype(h['out']))
+            _prior_save(img, c, h.get('route', 'file_map'))
+        except Exception:
+            pass
+    if d.get('history'):
+        img.set_data_dtype(out_dt)
     route, comp = d['route'], d['comp']
     if route == 'filename':
         with tempfile.TemporaryDirectory(prefix='c01_') as tmp:
@@ -435,6 +522,7 @@ def save_load(d, arr):
             raw = _decompress(fname, comp)
             loaded = c.from_filename(fname)
             got = np.array(np.asanyarray(loaded.dataobj))
+            loaded._c01_fdata = _fdata(loaded, d['out'])
             via_load = nib.load(fname) if d['cls'] in ('Nifti1Image', 'Nifti2Image', 'MGHImage') else None
             alt = None if via_load is None else np.array(np.asanyarray(via_load.dataobj))
             del via_load
@@ -561,7 +649,10 @@ def impl(case):
     except Exception as e:
         case.extra['exc'] = repr(e)[:300]
         return errname(e)
-    case.extra.update(raw=raw, got=got, alt=alt, hdr_dtype=loaded.header.get_data_dtype(), img_shape=tuple(loaded.shape),
+    fd = getattr(loaded, '_c01_fdata', None)
+    if fd is None and d['route'] != 'filename':
+        fd = _fdata(loaded, d['out'])
+    case.extra.update(raw=raw, got=got, alt=alt, fdata=fd, hdr_dtype=loaded.header.get_data_dtype(), img_shape=tuple(loaded.shape),
                       input_after=arr)
     kind, cw, k = comp_layout(d['out'])
     off = expected_offset(d)
@@ -635,7 +726,8 @@ def oracle(case, out):
     if arr is None:
         arr = base_array(d['in'], tuple(d['shape']), d['vals'])
     cell = f'{d["cls"]} route={d["route"]} comp={d["comp"] or "none"} endian={d["endian"]} {d["in"]}->{d["out"]} ' \
-           f'shape={tuple(d["shape"])} layout={d["layout"]} offset={d.get("offset")}'
+           f'shape={tuple(d["shape"])} layout={d["layout"]} offset={d.get("offset")}' + \
+           (f' after prior saves {d["history"]}' if d.get('history') else '')
     if out.startswith('ERR'):
         return f'save/load raised {out} ({ex.get("exc", "")}) for an in-domain image: {cell}'
     out_dt = np_dtype(d['out'])
@@ -659,6 +751,14 @@ def oracle(case, out):
         wp, gp = patterns(want, d['out']), patterns(got, d['out'])
         i = next((i for i, (a, b) in enumerate(zip(wp, gp)) if a != b), -1)
         return f'loaded values differ bit-wise from data.astype({d["out"]}) at flat C index {i}: want {wp[i]} got {gp[i]}: {cell}'
+    fd = ex.get('fdata')
+    if isinstance(fd, str):
+        return f'{fd}: {cell}'
+    if fd is not None:
+        with np.errstate(all='ignore'):
+            wf = want.astype(np.float64)
+        if tuple(fd.shape) != want_shape or not np.array_equal(fd, wf, equal_nan=True):
+            return f'loaded get_fdata() differs from data.astype({d["out"]}).astype(float64): {cell}'
     if ex.get('alt') is not None:
         alt = ex['alt']
         if tuple(alt.shape) != want_shape or np.ascontiguousarray(alt.astype(out_dt)).tobytes() != want.tobytes():
@@ -742,8 +842,15 @@ def _shrink_candidates(case):
         if shape[ax] == 1 and len(shape) > 1 and not (d['cls'] == 'MGHImage' and len(shape) == 4 and ax == 3):
             ns = shape[:ax] + shape[ax + 1:]
             yield rebuild(ns, vals)
+    if d.get('history'):
+        yield rebuild(shape, vals, history=None)
+        if len(d['history']) > 1:
+            yield rebuild(shape, vals, history=d['history'][:1])
+            yield rebuild(shape, vals, history=d['history'][1:])
     if d['layout'] != 'C':
         yield rebuild(shape, vals, layout='C')
+        if '+' in d['layout']:
+            yield rebuild(shape, vals, layout=d['layout'].split('+')[0])
     if d['route'] != 'file_map':
         yield rebuild(shape, vals, route='file_map', comp='')
     if d.get('offset') is not None:
@@ -858,6 +965,8 @@ def gen_rt(rng, cls, route, comp, stream='rt', zero=False):
         if outs:
             break
     out = rng.choice(outs)
+    if in_name in outs and rng.random() < 0.35:       # no cast at all: the writer may hand NumPy's buffer straight on
+        out = in_name
     shape = gen_shape(rng, ci['max_rank'], zero=zero)
     if cls == 'MGHImage' and zero:
         return None
@@ -869,8 +978,94 @@ def gen_rt(rng, cls, route, comp, stream='rt', zero=False):
     #  nothing is read back in either case - keep the default offset there)
     if ci['layout'] != 'mgh' and not zero and rng.random() < 0.3:
         offset = ci['off'] + rng.choice([0, 16, 16, 32, 48, 1, 7, 208])
-    layout = rng.choice(LAYOUTS)
-    return mk_rt(cls, endian, out, offset, shape, in_name, layout, vals, route, comp, stream)
+    layout = gen_layout(rng, len(shape))
+    history = None
+    if not zero and rng.random() < 0.3:
+        history = [gen_prior(rng, cls) for _ in range(rng.choice([1, 1, 2]))]
+    return mk_rt(cls, endian, out, offset, shape, in_name, layout, vals, route, comp, stream, history=history)
+
+
+def gen_prior(rng, cls):
+    """a prior save of the same image object: another on-disk dtype (small integer types make most data need
+    rescaling), to a throw-away destination"""
+    ci = class_info()[cls]
+    small = [t for t in ('u1', 'i2', 'i1', 'u2') if t in ci['dtypes']]
+    out = rng.choice(small) if rng.random() < 0.6 else rng.choice(ci['dtypes'])
+    routes = ['file_map', 'file_map', 'filename'] + (['bytes'] if ci['serial'] else [])
+    return {'out': out, 'route': rng.choice(routes)}
+
+
+NATIVE = '<' if np.little_endian else '>'
+
+
+def perm_stream(rng, tier):
+    """every axis permutation of C- and F-contiguous buffers for rank 2-4, saved with the on-disk dtype and byte
+    order identical to the in-memory ones (no cast, no swap: the writer sees NumPy's own buffer), and with a cast"""
+    out = []
+    info = class_info()
+    shapes = {2: [(3, 4)], 3: [(2, 3, 4), (3, 1, 4)], 4: [(2, 3, 2, 3), (2, 3, 4, 2)]}
+    for cls in CLASS_NAMES:
+        ci = info[cls]
+        dts = [t for t in ('i2', 'f4', 'u1', 'i4', 'c8', 'f8', 'rgb') if t in ci['dtypes']]
+        j = 0
+        for rank, shs in shapes.items():
+            for shape in shs:
+                n = int(np.prod(shape))
+                for perm in itertools.permutations(range(rank)):
+                    for base in 'CF':
+                        for endian in ('>' if ci['big_only'] else '<>'):
+                            j += 1
+                            if tier == 'quick' and rank == 4 and shape != shapes[4][0] and j % 3:
+                                continue
+                            dt = dts[j % len(dts)]
+                            same = (j % 4 != 0)
+                            in_name = dt if same else {'i2': 'u1', 'f4': 'i2', 'u1': 'u1', 'i4': 'i2', 'c8': 'f4',
+                                                       'f8': 'f4', 'rgb': 'rgb'}[dt]
+                            layout = f'perm:{base}:' + '.'.join(map(str, perm))
+                            if endian != NATIVE:
+                                layout += '+swap'             # memory byte order == on-disk byte order
+                            vals = gen_vals(rng, in_name, dt, n)
+                            route = ['file_map', 'bytes', 'filename'][j % 3]
+                            if route == 'bytes' and not ci['serial']:
+                                route = 'file_map'
+                            comp = ''
+                            if route == 'filename' and cls != 'MGHImage' and j % 2:
+                                comp = '.gz'
+                            out.append(mk_rt(cls, endian, dt, None, shape, in_name, layout, vals, route, comp, 'perm'))
+    return out
+
+
+def history_stream(rng, tier):
+    """the same image object saved before (with a dtype that needs rescaling / is refused / needs none), then
+    saved losslessly: class x prior dtype x dtype under test, deterministic"""
+    out = []
+    info = class_info()
+    for cls in CLASS_NAMES:
+        ci = info[cls]
+        small = [t for t in ('u1', 'i2') if t in ci['dtypes']]
+        for in_name, test_out in (('f4', 'f4'), ('f8', 'f8'), ('i4', 'i4'), ('i4', 'f4'), ('i2', 'i2'), ('f4', 'f8'),
+                                  ('u1', 'i2')):
+            if test_out not in ci['dtypes']:
+                continue
+            for prior in small + ['f4']:
+                if prior == test_out:
+                    continue
+                for k in range({'quick': 1, 'thorough': 4, 'search': 1}[tier]):
+                    shape = gen_shape(rng, min(ci['max_rank'], 4))
+                    n = int(np.prod(shape))
+                    if in_name.startswith('f'):     # multiples of 1/8: exact in float, not integers
+                        fl = np.array([rng.randint(-800, 800) / 8.0 for _ in range(n)], dtype=in_name)
+                        vals = [[int(x)] for x in fl.view('u%d' % fl.dtype.itemsize)]
+                    else:
+                        vals = gen_int_vals(rng, in_name, test_out, n)
+                    endian = '>' if ci['big_only'] else rng.choice('<>')
+                    hist = [{'out': prior, 'route': rng.choice(['file_map', 'filename'])}]
+                    if k % 2:
+                        hist.append(gen_prior(rng, cls))
+                    route = rng.choice(['file_map', 'filename'] + (['bytes', 'stream'] if ci['serial'] else []))
+                    out.append(mk_rt(cls, endian, test_out, None, shape, in_name, gen_layout(rng, len(shape)), vals,
+                                     route, '', 'history', history=hist))
+    return out
 
 
 def cells():
@@ -908,6 +1103,8 @@ def cases(rng, tier):
     for cls, route, comp in cells():
         for _ in range(per_cell):
             out.append(gen_rt(rng, cls, route, comp))
+    out.extend(perm_stream(rng, tier))
+    out.extend(history_stream(rng, tier))
     # ---- the MGH single-frame 4-D class (known finding) and its neighbours
     for shape in [(1, 1, 1, 1), (2, 3, 2, 1), (2, 1, 1, 1), (2, 3, 2, 2), (1, 1, 1, 2), (2, 3, 1), (1, 1, 1), (3,), (2, 2)]:
         n = int(np.prod(shape))
